@@ -325,7 +325,7 @@ def run(prop, spec, tier, scratch, known, vcheck):
         "coverage": {
             "states": max(paths, 1), "transitions": max(steps, 1), "traces_validated_against_impl": 0,
             "samples": samples or [{"note": "none"}],
-            "programs": sorted(programs), "structs_checked": sum(len(j["entries"]) for j in jobs),
+            "programs": len(programs), "programs_checked": sorted(programs), "structs_checked": sum(len(j["entries"]) for j in jobs),
             "generated_functions_encoded": len(gen_funcs), "generated_functions_sample": gen_funcs[:60],
             "queries": queries, "assertions_checked": asserts, "exhaustive": not inconclusive, "inconclusive": inconclusive[:20],
             "bounds": spec["bounds"][tier],
